@@ -3,7 +3,7 @@ package main
 // Seeded random generator of (consumer, producer) pairs, deeper (depth <= 5) and more varied
 // than the enumerated universe of CompatMC: random bounds, nested containers, objects with up
 // to four properties, scopes with up to three objects and arbitrary (also cyclic) references,
-// one-ofs, nested scopes; the producer is the consumer itself, the consumer with ONE feature
+// one-ofs, nested scopes, properties with defaults (scalar kinds) and disabled properties; the producer is the consumer itself, the consumer with ONE feature
 // changed at a random position, or an unrelated schema.  Only well-formed schemas are emitted
 // (the same WF as spec/Compat.tla; CompatTrace.tla re-checks it).
 
@@ -102,6 +102,17 @@ func (g *gen) schema(depth int, ids []string) *ast {
 	}
 }
 
+// prop draws the flags of a property: required 1/2, a default 1/3 where the type is a scalar kind,
+// disabled 1/6
+func (g *gen) prop(name string, t *ast) prop {
+	p := prop{Name: name, Required: g.r.Intn(2) == 0, Type: t}
+	if defaultKinds[t.Kind] && g.r.Intn(3) == 0 {
+		p.HasDefault = true
+	}
+	p.Disabled = g.r.Intn(6) == 0
+	return p
+}
+
 func (g *gen) object(depth int, ids []string, id string) *ast {
 	a := &ast{Kind: "object", ID: id, IDUnenforced: g.r.Intn(5) == 0, Props: []prop{}}
 	n := g.r.Intn(4)
@@ -110,7 +121,7 @@ func (g *gen) object(depth int, ids []string, id string) *ast {
 	}
 	perm := g.r.Perm(len(propNames))
 	for i := 0; i < n; i++ {
-		a.Props = append(a.Props, prop{Name: propNames[perm[i]], Required: g.r.Intn(2) == 0, Type: g.schema(depth-1, ids)})
+		a.Props = append(a.Props, g.prop(propNames[perm[i]], g.schema(depth-1, ids)))
 	}
 	return a
 }
@@ -206,7 +217,7 @@ func wf(a *ast, table []*ast) bool {
 	case "object":
 		seen := map[string]bool{}
 		for _, p := range a.Props {
-			if seen[p.Name] || !wf(p.Type, table) {
+			if seen[p.Name] || !wf(p.Type, table) || (p.HasDefault && !defaultKinds[p.Type.Kind]) {
 				return false
 			}
 			seen[p.Name] = true
@@ -401,7 +412,7 @@ func (g *gen) mutate(s site) string {
 		}
 		return ""
 	case "object":
-		switch g.r.Intn(6) {
+		switch g.r.Intn(9) {
 		case 0:
 			nid := objectIDs[g.r.Intn(len(objectIDs))]
 			if nid == a.ID {
@@ -437,9 +448,36 @@ func (g *gen) mutate(s site) string {
 					has = has || p.Name == n
 				}
 				if !has {
-					a.Props = append(a.Props, prop{Name: n, Required: g.r.Intn(2) == 0, Type: g.schema(2, tableIDs)})
+					a.Props = append(a.Props, g.prop(n, g.schema(2, tableIDs)))
 					return "property added"
 				}
+			}
+			return ""
+		case 4:
+			// the consumer's required property with a default / disabled, the producer lacking it
+			// (the walk's swap decides which side is which)
+			if len(a.Props) > 0 {
+				i := g.r.Intn(len(a.Props))
+				if a.Props[i].Required && (a.Props[i].HasDefault || a.Props[i].Disabled) {
+					a.Props = append(append([]prop{}, a.Props[:i]...), a.Props[i+1:]...)
+					return "flagged required property removed"
+				}
+			}
+			return ""
+		case 5:
+			if len(a.Props) > 0 {
+				i := g.r.Intn(len(a.Props))
+				if a.Props[i].HasDefault || defaultKinds[a.Props[i].Type.Kind] {
+					a.Props[i].HasDefault = !a.Props[i].HasDefault
+					return "property default"
+				}
+			}
+			return ""
+		case 6:
+			if len(a.Props) > 0 {
+				i := g.r.Intn(len(a.Props))
+				a.Props[i].Disabled = !a.Props[i].Disabled
+				return "property disabled"
 			}
 			return ""
 		default:
